@@ -829,6 +829,70 @@ def mon_C19(ops, results):
     return out
 
 
+def mon_C12(ops, results):
+    """a non-stale view query returns what the map function emits for the collection's current documents (as the KV read-back shows
+    them), ordered and filtered as requested - computed by the independent oracle lib/viewspec.py."""
+    import json as _j
+    import viewspec as VS
+    out = []
+    views = {}          # (coll, ddoc) -> {view: (mapId, reduce)}
+    withmeta = set()    # collections that have seen a WithMeta write
+    for i, name, pos, args, res, last, feeds in Trace(ops, results).steps():
+        if name in ("swm", "dwm") and res.startswith("r=ok"):
+            withmeta.add(pos[0])
+        if name == "putddoc" and res.startswith("r=ok"):
+            vs = {}
+            for k, v in args:
+                if k.startswith("v."):
+                    m, _, red = v.partition(":")
+                    vs[k[2:]] = (int(m), red)
+            views[(pos[0], pos[1])] = vs
+        if name == "delddoc" and res.startswith("r=ok"):
+            views.pop((pos[0], pos[1]), None)
+        if name != "view":
+            continue
+        coll, dd, vn = pos[0], pos[1], pos[2]
+        vdef = views.get((coll, dd), {}).get(vn)
+        if vdef is None:
+            if res.startswith("r=ok"):
+                out.append(viol("C12.unknown-view", i, "a query on a view that does not exist succeeded: " + res[:80]))
+            continue
+        if not res.startswith("r=ok"):
+            out.append(viol("C12.query-runs", i, "view query failed: " + res[:100]))
+            continue
+        if arg(args, "stale") == "ok":
+            continue
+        docs = {}
+        for (c, k), d in last.items():
+            if c != coll or absent(d):
+                continue
+            body = d.get("row.v", "~")
+            docs[k] = {"body": None if body == "~" else body[1:], "is_json": d.get("row.json") == "1", "xattrs": xmap(d.get("row.x", "~"))}
+        p = {}
+        for a, key in (("key", "key"), ("startkey", "startkey"), ("endkey", "endkey"), ("keys", "keys")):
+            if arg(args, a) is not None:
+                p[key] = _j.loads(arg(args, a))
+        if arg(args, "incl") == "0":
+            p["inclusive_end"] = False
+        if arg(args, "desc") == "1":
+            p["descending"] = True
+        if arg(args, "limit") is not None:
+            p["limit"] = int(arg(args, "limit"))
+        if arg(args, "reduce") == "0":
+            p["reduce"] = False
+        if arg(args, "group") == "1":
+            p["group"] = True
+        if arg(args, "glevel") is not None:
+            p["group_level"] = int(arg(args, "glevel"))
+        want = VS.render(VS.expected(vdef[0], vdef[1], docs, p))
+        got = res.split(" rows=", 1)[1] if " rows=" in res else ""
+        if got != want:
+            rule = "C12.stale-after-withmeta" if coll in withmeta else "C12.rows-equal-map-of-current-documents"
+            out.append(viol(rule, i, "view %s/%s/%s (map %d%s) %s returned [%s]; the map function over the current documents gives [%s]" % (
+                coll, dd, vn, vdef[0], " reduce " + vdef[1] if vdef[1] else "", " ".join("%s=%s" % a for a in args), got[:300], want[:300])))
+    return out
+
+
 def mon_C15(ops, results):
     """a checkpointed resume-mode feed: the persisted checkpoint never exceeds the highest CAS delivered; taken together its runs
     deliver the final version of every document mutated through the regular API."""
@@ -928,5 +992,5 @@ def mon_C14(ops, results):
     return out
 
 
-MONITORS = {"C14": mon_C14, "C15": mon_C15, "C18": mon_C18, "C19": mon_C19, "C04": mon_C04, "C01": mon_C01, "C02": mon_C02, "C05": mon_C05, "C06": mon_C06, "C07": mon_C07, "C08": mon_C08, "C09": mon_C09,
+MONITORS = {"C12": mon_C12, "C14": mon_C14, "C15": mon_C15, "C18": mon_C18, "C19": mon_C19, "C04": mon_C04, "C01": mon_C01, "C02": mon_C02, "C05": mon_C05, "C06": mon_C06, "C07": mon_C07, "C08": mon_C08, "C09": mon_C09,
             "C11": mon_C11, "C17": mon_C17}
